@@ -288,3 +288,36 @@ func VerifC11_RestartAfterOutage() {
 	}
 	vReach("end")
 }
+
+// VerifC11_ErrorDuringStart: a task's collection reader reports a read error while the task is
+// still being started (StartRead walks all existing collections synchronously; the watcher
+// goroutine pauses the task meanwhile). Afterwards the task is Paused in all four views, has no
+// active reader, holds no share of the target's resources and left no quit function behind;
+// it can be deleted, which removes everything.
+func VerifC11_ErrorDuringStart() {
+	w := sNewWorld()
+	srv := &CDCServer{api: w.cdc, serverConfig: w.cdc.config}
+	other := &c11Task{target: c11T1, coll: "o"}
+	withOther := vBool("anotherTaskRunsOnTheTarget")
+	if withOther {
+		vAssert(c11Create(w, srv, other), "C11.create-accepted")
+	}
+	t := &c11Task{target: c11T1, coll: "a"}
+	// the id is only known after the create: the task ids of the world are task-1, task-2, ...
+	sErrDuringStart = "task-2"
+	if !withOther {
+		sErrDuringStart = "task-1"
+	}
+	ok := c11Create(w, srv, t)
+	sErrDuringStart = ""
+	vQuiesce()
+	vAssert(ok, "C11.create-accepted")
+	t.state = meta.TaskStatePaused
+	c11Check(w, w.cdc, []*c11Task{other, t}, ":error-during-start")
+	isErr, _, _ := c18Do(srv, request.Delete, &request.DeleteRequest{TaskID: t.id})
+	vAssert(!isErr, "C11.delete-accepted")
+	t.exists = false
+	vQuiesce()
+	c11Check(w, w.cdc, []*c11Task{other, t}, ":error-during-start-then-delete")
+	vReach("end")
+}
